@@ -573,7 +573,7 @@ impl <N: Numeric> ArrayCreateNumeric<N> for Array<N> {
 
         let elements = (0..n)
             .flat_map(|i| (0..m).map(move |j|
-                if j.to_isize() <= i.to_isize() + k { N::one() }
+                if j.to_isize() <= i.to_isize().saturating_add(k) { N::one() }
                 else { N::zero() }
             ))
             .collect();
